@@ -268,6 +268,18 @@ func (w *c14World) kinds(E []string) []c14Kind {
 		add(c14Kind{"IteratorMatchingAnyOf[2 values, one absent]/" + dir, rev, "", anyRole("p"), func(tx *bbolt.Tx) ast.SetCursor {
 			return w.items.IteratorMatchingAnyOf(w.rolesIdx, []string{"p", "zz"})(tx, !rev)
 		}})
+		add(c14Kind{"IteratorMatchingAnyOf[2 values, first absent]/" + dir, rev, "", anyRole("p"), func(tx *bbolt.Tx) ast.SetCursor {
+			return w.items.IteratorMatchingAnyOf(w.rolesIdx, []string{"zz", "p"})(tx, !rev)
+		}})
+		add(c14Kind{"IteratorMatchingAnyOf[3 values, only the middle one present]/" + dir, rev, "", anyRole("p"), func(tx *bbolt.Tx) ast.SetCursor {
+			return w.items.IteratorMatchingAnyOf(w.rolesIdx, []string{"yy", "p", "zz"})(tx, !rev)
+		}})
+		add(c14Kind{"IteratorMatchingAllOf[2 values, first absent]/" + dir, rev, "", func([]string) []string { return nil }, func(tx *bbolt.Tx) ast.SetCursor {
+			return w.items.IteratorMatchingAllOf(w.rolesIdx, []string{"zz", "all"})(tx, !rev)
+		}})
+		add(c14Kind{"IteratorMatchingAllOf[2 values, reversed order]/" + dir, rev, "", withRole("all", "p"), func(tx *bbolt.Tx) ast.SetCursor {
+			return w.items.IteratorMatchingAllOf(w.rolesIdx, []string{"p", "all"})(tx, !rev)
+		}})
 		add(c14Kind{"IteratorMatchingAnyOf[2 values, none present]/" + dir, rev, "", func([]string) []string { return nil }, func(tx *bbolt.Tx) ast.SetCursor {
 			return w.items.IteratorMatchingAnyOf(w.rolesIdx, []string{"zz", "yy"})(tx, !rev)
 		}})
